@@ -61,6 +61,14 @@ Lemma witness_d : galaxy_allows Hx Cd fd = false /\ k8s_allows Cd fd = true. Pro
 Lemma witness_e : galaxy_allows Hx Ce fe = true /\ k8s_allows Ce fe = false. Proof. vm_compute. split; reflexivity. Qed.
 Lemma witness_g : galaxy_allows Hx Cg fg = true /\ k8s_allows Cg fg = false. Proof. vm_compute. split; reflexivity. Qed.
 
+(** hash:net, the kernel's rule: the most specific element containing the address decides.  In
+    {10.0.0.0/8, 10.1.0.0/16 nomatch, 10.1.2.0/24}: 10.1.2.3 matches (the /24 is inside the nomatch /16 and more
+    specific), 10.1.3.3 does not (the /16 decides), 10.2.0.1 matches (only the /8 contains it), 11.0.0.1 is outside. *)
+Example hashnet_most_specific :
+  map (elems_match HashNet [(L "10.0.0.0/8", false); (L "10.1.0.0/16", true); (L "10.1.2.0/24", false)])
+      [ip4 10 1 2 3; ip4 10 1 3 3; ip4 10 2 0 1; ip4 11 0 0 1] = [true; false; true; false].
+Proof. vm_compute. reflexivity. Qed.
+
 Lemma differ (c : cluster) (f : flow) (b : bool) :
   galaxy_allows Hx c f = b /\ k8s_allows c f = negb b -> exists c f, galaxy_allows Hx c f <> k8s_allows c f.
 Proof. intros [E1 E2]. exists c, f. rewrite E1, E2. destruct b; discriminate. Qed.
